@@ -391,6 +391,11 @@ def run(spec):
             cfg = dict(jac="callable", maxcor=spec["maxcor"], maxiter=spec["maxiter"], ftol=0.0, gtol=1e-10, maxfun=3000, eps_SY=spec.get("eps_SY", 2.2e-16),
                        maxls=int(spec.get("maxls", 20)))
             hooks = {}
+            if int(P.spec["seed"]) % 3 == 0:
+                # a user logger at a verbosity at which the routines report their own steps (diagnostics must not touch what they report on)
+                cfg["logger"] = True
+                cfg["iprint"] = int([99, 100, 101, 1000, 1][int(P.spec["seed"]) // 3 % 5])
+                out.count("runs_traced_through_a_logger")
             if spec.get("grad_dtype"):
                 cfg["grad_dtype"] = spec["grad_dtype"]  # the user's gradient code works in single precision
                 out.count("runs_with_single_precision_gradient")
